@@ -554,7 +554,9 @@ class FlatLinearOperator(ScipyLinearOperator):
                 npc_vec.legs[0] = npc_vec.legs[0].to_LegCharge()
             return npc_vec[self._mask].to_ndarray()
         else:
-            npc_vec.itranspose([self.vec_label, 'charge'])
+            # note: the other label might differ from `self.vec_label` after a general `npc_matvec`
+            charge_idx = npc_vec.get_leg_index('charge')
+            npc_vec.itranspose([1 - charge_idx, charge_idx])
             res = np.zeros([self.leg.ind_len], npc_vec.dtype)
             leg = self.leg
             for qinds, data in zip(npc_vec._qdata, npc_vec._data):
